@@ -315,6 +315,10 @@ def run(tier, seed):
                 rep.violation("C02:exception-lost:%s" % cls, "a raising call returned normally: %r" % (outs,), meta)
                 continue
             (_, t1, m1), (_, t2, m2) = outs
+            # the first call is an execution of the body: the caller sees the body's own exception (class and message)
+            own = {"LocalOnly": "LocalOnlyError", "FnLocal": "FnLocalError", "Nested": "NestedError", "NonMemoized": "NonMemoizedException"}.get(cls, cls)
+            if t1.__name__ not in (own, "OSError" if own == "IOError" else own) or ("msg-%d" % ei) not in m1:
+                rep.violation("C02:first-call-exception-differs:%s" % cls, "the body raised %s('msg-%d'...); the first (computing) call raised %s: %r" % (own, ei, t1.__name__, m1[:80]), meta)
             if cls == "NonMemoized":
                 if n != 2 or fnmod.n0.memento(spec) is not None:
                     rep.violation("C02:non-memoized-exception-recorded", "not-to-be-memoized exception: body ran %d times for two calls, memento=%r" % (n, fnmod.n0.memento(spec)), meta)
